@@ -84,9 +84,16 @@ class Path:
     __slots__ = ('prefix', 'pc', 'assumptions', 'obligations', 'result', 'exc', 'notes')
 
 
+# deterministic work budget of one exploration (number of branch-feasibility solver calls): ~30x the largest count any contract needs on the unchanged tree
+# (1336 calls, 256 paths in the quick tier). Code that forks far more (e.g. a loop over a symbolic support) is outside the engine's reach within the tier: the contract is `undecided`
+# (bounded form decides) instead of running for hours. A count, not a wall-clock limit, so that the verdict does not depend on machine load.
+BUDGET = {'solver_calls': 10000, 'paths': 2000}      # quick tier; the driver sets 400000 / 20000 for the thorough tier (unchanged tree, quick: at most 1336 calls / 256 paths per contract)
+
+
 def explore(run, max_paths=20000):
     """run(ctx) is executed once per feasible path. Returns (paths, solver_calls)."""
     global CTX
+    max_paths = min(max_paths, BUDGET['paths'])
     todo = [[]]
     out = []
     nsol = 0
@@ -101,6 +108,8 @@ def explore(run, max_paths=20000):
                 p.exc = None
             except Infeasible:
                 todo.extend(c.todo); nsol += c.nsolver
+                if nsol > BUDGET['solver_calls']:
+                    raise Unsupported(f"exploration budget of {BUDGET['solver_calls']} branch-feasibility solver calls exceeded after {len(out)} paths")
                 continue
             except Unsupported as ex:
                 if not c.pc:
@@ -117,6 +126,8 @@ def explore(run, max_paths=20000):
             todo.extend(c.todo); nsol += c.nsolver
             if len(out) > max_paths:
                 raise Unsupported(f'path cap {max_paths} exceeded')
+            if nsol > BUDGET['solver_calls']:
+                raise Unsupported(f"exploration budget of {BUDGET['solver_calls']} branch-feasibility solver calls exceeded after {len(out)} paths")
     finally:
         CTX = None
     return out, nsol
